@@ -455,4 +455,13 @@ theorem reference_compressor_read (buf : Bytes) (tbl : CTable) (pos : Nat) (ls :
     DnsRef.name buf pos = some (ls, (cname tbl pos ls).1.length) :=
   cname_read buf tbl pos ls rest hb hok htbl
 
+/-- **C26 (everything the reference compressing encoder writes is read back).** For every list of names (labels of
+    1..63 bytes): in the byte string `cnames [] 0 names` — the names written one after the other by the reference
+    encoder, each suffix replaced by a pointer to its first registration below 0x4000 — the specification decoder reads
+    at the offset of the i-th name exactly the i-th name. No hypothesis about tables: the table invariant is
+    established by the encoder itself. -/
+theorem reference_compressor_sequence_read (names : List (List Bytes)) (hok : ∀ n ∈ names, LabelsOk n) :
+    Rel2 (fun off n => ∃ k, DnsRef.name (cnames [] 0 names) off = some (n, k)) (cnameOffsets [] 0 names) names :=
+  cnames_read (cnames [] 0 names) names [] 0 [] (by simp) hok (by intro s t h; simp at h)
+
 end MitmVerif.Props.C26
